@@ -5,6 +5,7 @@ import (
 	"sort"
 
 	"github.com/awslabs/ar-go-tools/analysis/dataflow"
+	"golang.org/x/tools/go/ssa"
 )
 
 // checkGraph evaluates the C17 structural invariants on the graph a run has built. It returns the
@@ -31,11 +32,16 @@ func checkGraphMode(g *dataflow.InterProceduralFlowGraph, partial bool) ([]strin
 		return dataflow.NodeKind(n) + "[" + n.ParentName() + "] " + n.String()
 	}
 	accessOf := map[*dataflow.GlobalNode]map[*dataflow.AccessGlobalNode]bool{}
-	for fn, s := range g.Summaries {
+	fns := make([]*ssa.Function, 0, len(g.Summaries))
+	for fn := range g.Summaries {
+		fns = append(fns, fn)
+	}
+	sort.Slice(fns, func(i, j int) bool { return fns[i].String() < fns[j].String() })
+	for _, fn := range fns {
+		s := g.Summaries[fn]
 		if s == nil {
 			continue
 		}
-		_ = fn
 		s.ForAllNodes(func(n dataflow.GraphNode) {
 			for m, infos := range n.Out() {
 				for _, info := range infos {
